@@ -988,6 +988,8 @@ def o_C12(I, ref_len):
             continue
         too_big = M is not None and L > M
         got = op.done is not None and op.done[1] == 'err MaximumPacketSizeExceeded'
+        if too_big and not got and not op.w and op.done is not None and op.done[1] == 'err ContextExited':
+            continue        # the request never reached a serving context (it is C14's): nothing to judge about its size
         if too_big != got:
             out.append((I.name, op.seg, f'op{op.id} {op.kind}: packet of {L} bytes, Maximum Packet Size {M}: refused={got}'))
         if got and op.w:
